@@ -16,6 +16,7 @@ func init() {
 			"R17.2 close-once typestate: the original stream is closed only in state 'open' (underlying != nil) and the state is set to closed on every path on which the original Close is called, before any return; reads test the state before delegating. " +
 			"R17.3 nil-receiver consistency: HasBody can install a nil *peekingReader, so every method dereferences its receiver only under p != nil. " +
 			"R17.1 also: HasContent touches no field of the reader but the buffered stream (no remembered answer) and newPeekingReader always returns a fresh wrapper. " +
+			"R17.1 also: a constant true answer of HasContent is given only under Buffered() > 0 or a non-empty Peek. " +
 			"NOT decided: the byte sequences bufio delivers under arbitrary chunking (bufio is trusted).",
 		Assumptions: []string{"bufio.Reader.Peek/Read deliver the underlying bytes in order as documented"},
 		Run:         runC17,
